@@ -406,3 +406,33 @@ def src(node):
         return ast.unparse(node)
     except Exception:
         return '<{}>'.format(type(node).__name__)
+
+
+def split_if(ex, ifnode):
+    """(test term with leading `not`s removed, block when it holds, block when it does not)."""
+    t = ex.term(ifnode.test)
+    body, orelse = ifnode.body, ifnode.orelse
+    while t[0] == 'unary' and t[1] == 'not':
+        t = t[2]
+        body, orelse = orelse, body
+    return t, body, orelse
+
+
+def if_branches(ex, ifnode, pats):
+    """(block where one of `pats` holds, block where it does not) or None.
+
+    Recognises the test itself, `not test`, and the syntactic negation (is / is not, == / !=,
+    in / not in, De Morgan) - so swapping the branches of an if/else does not matter.
+    """
+    if isinstance(pats, str):
+        pats = (pats,)
+    t, body, orelse = split_if(ex, ifnode)
+    for p in pats:
+        if match(t, pattern(p)) is not None:
+            return body, orelse
+    n = negate_term(t)
+    if n is not None:
+        for p in pats:
+            if match(n, pattern(p)) is not None:
+                return orelse, body
+    return None
